@@ -14,12 +14,13 @@ import (
 // @immutable
 // implements reporting.Violation
 type TestOnlyViolation struct {
-	Pos         token.Pos
-	TestOnlyObj string // Name of the @testonly object being used
-	Kind        annotations.TestOnlyKind
-	UsedInFile  string // File where @testonly object is used
-	Reason      string
-	Code        string // Error code from codes package
+	Pos            token.Pos
+	TestOnlyObj    string // Name of the @testonly object being used
+	TestOnlyObjPkg string // Package path of the @testonly type (used to deduplicate per file)
+	Kind           annotations.TestOnlyKind
+	UsedInFile     string // File where @testonly object is used
+	Reason         string
+	Code           string // Error code from codes package
 }
 
 // GetCode returns the error code for this violation
